@@ -11,6 +11,7 @@ pub fn dispatch(kind: u32, v: &Val) -> Option<Val> {
         204 => Some(run_reader_any(v, false)),
         205 => Some(run_reader_any(v, true)),
         206 => Some(run_sequence(v)),
+        207 => Some(run_ml_sequence(v)),
         _ => None,
     }
 }
@@ -163,6 +164,79 @@ pub fn run_sequence(v: &Val) -> Val {
             Err(ref e) if sink.events.is_empty() && e.to_string().contains("line terminator") => Val::L(vec![Val::N(1), Val::L(vec![])]),
             _ => result_val(r, sink),
         });
+    }
+    let _ = std::fs::remove_dir(&dir);
+    Val::L(out)
+}
+
+/// A reader that writes down the size of every destination slice it is offered before handing the call on.
+pub struct RoomRecorder<R> { pub inner: R, pub rooms: std::rc::Rc<std::cell::RefCell<Vec<usize>>> }
+impl<R: Read> Read for RoomRecorder<R> {
+    fn read(&mut self, buf: &mut [u8]) -> io::Result<usize> {
+        self.rooms.borrow_mut().push(buf.len());
+        self.inner.read(buf)
+    }
+}
+
+/// kind 207: ONE Searcher with `multi_line(true)` and the given heap limit fills its multi-line heap buffer from
+/// several sources one after the other (Searcher::fill_multi_line_buffer_from_reader / _from_file), as
+/// Model/MultiLineBuffer.v `search_reader_ml` / `search_file_ml` do.
+/// case: (cfg matcher heap mmap sources), heap = () | (h), source = (tag input hist reply rooms),
+/// tag 1 = search_reader with a scripted reader, 3 = search_file of a real file without a memory map.
+/// Result per source: (status events errkind rooms), errkind 0 none / 1 configuration / 2 heap limit / 3 read
+/// error / 4 anything else; rooms = the sizes of the slices the scripted reader was offered.
+pub fn run_ml_sequence(v: &Val) -> Val {
+    use grep_searcher::MmapChoice;
+    use std::io::Write;
+    let cfg = decode_cfg(v.fld(0));
+    let m = decode_matcher(&cfg, v.fld(1));
+    let heap = v.fld(2).opt().map(|h| h.us());
+    let mmap = v.fld(3).b();
+    let mut sb = searcher_builder(&cfg);
+    sb.heap_limit(heap);
+    sb.memory_map(if mmap { unsafe { MmapChoice::auto() } } else { MmapChoice::never() });
+    let mut searcher = sb.build();
+    if !searcher.multi_line_with_matcher(&m) {
+        return Val::L(vec![Val::N(9)]);
+    }
+    let dir = std::env::temp_dir().join(format!("verif-c02ml-{}", std::process::id()));
+    let _ = std::fs::create_dir_all(&dir);
+    let mut out = vec![];
+    for (i, src) in v.fld(4).list().iter().enumerate() {
+        let tag = src.fld(0).n();
+        let input = src.fld(1).bytes();
+        let mut sink = LogSink::new(decode_reply(src.fld(3)));
+        let rooms = std::rc::Rc::new(std::cell::RefCell::new(vec![]));
+        let r = match tag {
+            1 => {
+                let rdr = RoomRecorder { inner: ScriptedReader { rest: input, at: 0, hist: decode_hist(src.fld(2)) }, rooms: rooms.clone() };
+                searcher.search_reader(&m, rdr, &mut sink)
+            }
+            3 => {
+                assert!(!mmap, "kind 207: a file source needs a Searcher without memory maps");
+                let p = dir.join(format!("f{}", i));
+                { let mut f = std::fs::File::create(&p).unwrap(); f.write_all(&input).unwrap(); }
+                let f = std::fs::File::open(&p).unwrap();
+                let r = searcher.search_file(&m, &f, &mut sink);
+                let _ = std::fs::remove_file(&p);
+                r
+            }
+            _ => panic!("kind 207: unknown source tag"),
+        };
+        let errkind = match r {
+            Ok(()) => 0,
+            Err(ref e) => {
+                let msg = e.to_string();
+                if msg.contains("sink failure") { 0 }
+                else if msg.contains("line terminator") || msg.contains("no available searchers") { 1 }
+                else if msg.contains("configured allocation limit") { 2 }
+                else if msg.contains("read failure") { 3 }
+                else { 4 }
+            }
+        };
+        let status = if r.is_ok() { 0 } else { 1 };
+        let seen: Vec<Val> = rooms.borrow().iter().map(|&n| Val::of_us(n)).collect();
+        out.push(Val::L(vec![Val::N(status), Val::L(sink.events), Val::N(errkind), Val::L(seen)]));
     }
     let _ = std::fs::remove_dir(&dir);
     Val::L(out)
